@@ -81,14 +81,10 @@ class SArr(real_np.ndarray):
         return _collapse(r)
 
     def all(self, axis=None, **kw):
-        if axis is None:
-            return AND(real_np.asarray(self).reshape(-1))
-        return S(real_np.apply_along_axis(lambda v: oarr(AND(v)), axis, real_np.asarray(self)))
+        return _reduce_bool(real_np.asarray(self), axis, AND)
 
     def any(self, axis=None, **kw):
-        if axis is None:
-            return OR(real_np.asarray(self).reshape(-1))
-        return S(real_np.apply_along_axis(lambda v: oarr(OR(v)), axis, real_np.asarray(self)))
+        return _reduce_bool(real_np.asarray(self), axis, OR)
 
     def astype(self, dtype, **kw):
         if dtype in (int, real_np.int_, real_np.int64, real_np.int32, 'int', float, real_np.float64, complex,
@@ -119,6 +115,19 @@ class SArr(real_np.ndarray):
 
     def tostring(self, *a, **k):
         return self._concrete().tobytes(*a, **k)
+
+
+def _reduce_bool(a, axis, fold):
+    """all / any over an axis with symbolic booleans"""
+    if axis is None:
+        return fold(a.reshape(-1))
+    if a.dtype != object:
+        return (real_np.all if fold is AND else real_np.any)(a, axis)
+    moved = real_np.moveaxis(a, axis, -1)
+    out = real_np.empty(moved.shape[:-1], dtype=object)
+    for pos in real_np.ndindex(*moved.shape[:-1]):
+        out[pos] = fold(moved[pos])
+    return _collapse(out) if out.ndim else out[()]
 
 
 def S(a):
@@ -273,21 +282,15 @@ class NPShim:
         a = real_np.asarray(a)
         if a.dtype != object:
             return real_np.all(a, axis)
-        if axis is None:
-            return AND(a.reshape(-1))
-        if a.size == 0:
+        if a.size == 0 and axis is not None:
             return real_np.all(real_np.zeros(a.shape, dtype=bool), axis)
-        r = real_np.apply_along_axis(lambda v: oarr(AND(v)), axis, a)
-        return _collapse(r)
+        return _reduce_bool(a, axis, AND)
 
     def any(self, a, axis=None, **kw):
         a = real_np.asarray(a)
         if a.dtype != object:
             return real_np.any(a, axis)
-        if axis is None:
-            return OR(a.reshape(-1))
-        r = real_np.apply_along_axis(lambda v: oarr(OR(v)), axis, a)
-        return _collapse(r)
+        return _reduce_bool(a, axis, OR)
 
     def logical_and(self, a, b):
         return _collapse(real_np.frompyfunc(b_and, 2, 1)(real_np.asarray(a), real_np.asarray(b)))
@@ -331,16 +334,17 @@ class NPShim:
                 best = i
         return best
 
-    def unique(self, arr, return_inverse=False, axis=None, **kw):
+    def unique(self, arr, return_index=False, return_inverse=False, axis=None, **kw):
         arr = real_np.asarray(arr)
         if arr.dtype != object:
-            return real_np.unique(arr, return_inverse=return_inverse, axis=axis)
+            return real_np.unique(arr, return_index=return_index, return_inverse=return_inverse, axis=axis, **kw)
         if axis != 0:
             raise NeedConcrete('unique on symbolic array only along axis 0')
         rows = [real_np.asarray(r) for r in arr]
         uniq = []
+        first = []
         inv = []
-        for r in rows:
+        for k_row, r in enumerate(rows):
             pos = 0
             found = None
             while pos < len(uniq):
@@ -353,6 +357,7 @@ class NPShim:
                 pos += 1
             if found is None:
                 uniq.insert(pos, r)
+                first.insert(pos, k_row)
                 inv = [i + 1 if i >= pos else i for i in inv]
                 inv.append(pos)
             else:
@@ -360,7 +365,12 @@ class NPShim:
         u = real_np.empty((len(uniq), arr.shape[1]), dtype=object)
         for i, r in enumerate(uniq):
             u[i] = r
-        return (S(u), real_np.array(inv, dtype=int)) if return_inverse else S(u)
+        out = [S(u)]
+        if return_index:
+            out.append(real_np.array(first, dtype=int))
+        if return_inverse:
+            out.append(real_np.array(inv, dtype=int))
+        return tuple(out) if len(out) > 1 else out[0]
 
     def concatenate(self, arrs, axis=0, **kw):
         arrs = [real_np.asarray(a) for a in arrs]
@@ -385,6 +395,18 @@ class NPShim:
 
     def repeat(self, a, n, **kw):
         return real_np.repeat(a, n, **kw)
+
+    def ix_(self, *args):
+        return real_np.ix_(*[real_np.asarray(_norm_index(real_np.asarray(a))) if isinstance(a, real_np.ndarray) else a for a in args])
+
+    def count_nonzero(self, a, *args, **kw):
+        a = real_np.asarray(a)
+        if a.dtype != object:
+            return real_np.count_nonzero(a, *args, **kw)
+        tot = 0
+        for x in a.reshape(-1):
+            tot = tot + ite(to_bool(x), 1, 0)
+        return tot
 
     def shares_memory(self, a, b):
         return real_np.shares_memory(a, b)
